@@ -62,7 +62,8 @@ def check(run):
     fams = families(run, rng, quick)
     nperm = 1 if quick else 5
     plan = [("json", None)] + [("json", rng.randrange(1 << 30)) for _ in range(nperm)] \
-        + [("yaml", rng.randrange(1 << 30)) for _ in range(nperm)] + [("json5", rng.randrange(1 << 30)) for _ in range(nperm)]
+        + [("yaml", rng.randrange(1 << 30)) for _ in range(nperm)] + [("json5", rng.randrange(1 << 30)) for _ in range(nperm)] \
+        + [("yaml2", rng.randrange(1 << 30)) for _ in range(nperm)]      # yaml2: YAML as written by hand (block sequences, plain / single-quoted scalars)
     # every driver binary is built before the families fan out (cargo must not run concurrently on one target directory)
     for fmt in ("json", "yaml", "json5"):
         vp.cargo_build("drv_parser", (fmt, "quote"), variant=fmt + "-quote")
@@ -92,14 +93,15 @@ def _family(run, fam, plan):
     if True:
         for n, (fmt, seed) in enumerate(plan):
             tag = "_%s_%s_%d" % (name, fmt, n)
-            loadfam.replay_load(run, cases, tmod, tcfg, build_features=(fmt, "quote"), variant=fmt + "-quote", fmt=fmt,
+            feat = "yaml" if fmt == "yaml2" else fmt
+            loadfam.replay_load(run, cases, tmod, tcfg, build_features=(feat, "quote"), variant=feat + "-quote", fmt=fmt,
                                 perm_seed=seed, tag=tag, trace_env=tenv, keep_dirs=(n <= 1),
                                 key_of=lambda c, r, nm=name, f=fmt, s=seed: _key(nm, f, s, c, r))
             total += len(cases)
             if n == 1:
                 # the same directories, a second fresh process: the two traces must be identical
                 wd = os.path.join(run.workdir, "load" + tag)
-                binary = vp.cargo_build("drv_parser", (fmt, "quote"), variant=fmt + "-quote")
+                binary = vp.cargo_build("drv_parser", (feat, "quote"), variant=feat + "-quote")
                 t2 = os.path.join(wd, "trace2.ndjson")
                 vp.run_driver(binary, os.path.join(wd, "drv_in.ndjson"), t2, len(cases))
                 summary, rejects, _ = vp.trace_validate("Trace_Same", "Trace_Same.cfg", wd, os.path.join(wd, "trace.ndjson"),
